@@ -404,7 +404,8 @@ fn odd_content(t: &mut crate::supply::SupplyTrace, r: &mut Rng) -> String {
                 (Body::Link(_), Some(k)) => (*k, t.root.files[fi].name.clone()),
                 _ => return "none".into(),
             };
-            let sname = fname.split('.').next().unwrap_or("").to_string();
+            // <step>.<key-id prefix>.link (the step name may have dots of its own)
+            let sname = fname.trim_end_matches(".link").rsplit_once('.').map(|x| x.0).unwrap_or("").to_string();
             let inner = LevelSpec {
                 layout: LayoutSpec {
                     expires: t.root.layout.expires.clone(),
